@@ -212,6 +212,15 @@ namespace awkward {
   }
 
   const FormPtr
+  RegularForm::getitem_range() const {
+    return std::make_shared<RegularForm>(has_identities_,
+                                         parameters_,
+                                         form_key_,
+                                         content_.get()->getitem_range(),
+                                         size_);
+  }
+
+  const FormPtr
   RegularForm::getitem_field(const std::string& key) const {
     return std::make_shared<RegularForm>(
       has_identities_,
